@@ -46,6 +46,10 @@ CHECKS = {
             "Every vertex sequence of length 0..6 (thorough 7) over the 3x3 lattice with repetition, as LineString and closed as Polygon ring (exterior and interior) and Multi* member, crossed with an epsilon alphabet straddling the attainable distances/areas, through simplify, simplify_idx, simplify_vw, simplify_vw_idx, simplify_vw_preserve: output is the subsequence named by the indices, keeps first and last, every dropped vertex is within epsilon of its replacing segment (exact rational), every kept interior VW vertex has triangle area > epsilon (exact), epsilon <= 0 is the identity, rings stay closed and RDP / VW-preserve keep >= 4 coordinates.",
             "Trusted: exact rational point-segment distance and integer triangle areas. The harness builds geo with overflow checks on, so arithmetic wrap-around shows up as a panic.",
             "DESIGN.md §4 C09"),
+    "C03": ("E1-grid", "exhaustive enumeration of ulp-lattice windows around ill-conditioned configurations vs exact big-integer predicates",
+            "For 8 ill-conditioned base configurations (Shewchuk's classroom example, segments with endpoints at 2^52, exactly collinear integers at 2^51, nearly parallel lines, a thin triangle, mixed magnitudes 2^-30..2^30, far from the origin, negative quadrant) the query point ranges over every point of a w x w ulp lattice (96^2 quick, 384^2 thorough); orient2d (f64, f32), point-on-segment, segment-segment intersects, line_intersection presence, ring/polygon/triangle/rect point location, contains/intersects and winding_order must equal exact arithmetic on the dyadic values; hull vertex sets on window points; integer kernels on all lattice triples at magnitudes up to 2^29.",
+            "The domain 'all finite f64' is not enumerable: coverage is the stated windows only. The evidence reports on how many window points the naive determinant is wrong (the check aborts as vacuous if none). One known finding: quick_hull is not robust on such points.",
+            "DESIGN.md §4 C03"),
 }
 
 NOT_YET = "check not built yet in this round (planned: bounded exhaustive exploration, see DESIGN.md §4)"
